@@ -9,6 +9,8 @@ def run(ctx):
     # LegalB = a legal alignment in which every occurrence of a captured variable is code identical (TreeEq) to the
     # binding the real match reported; candidates include sub-terms equal up to trailing optional children.
     import vlib
+    # the same clause on the bounded model: occurrences of A at both levels, goal lists <= 3 x candidate lists <= 3
+    vlib.model_check(ctx, "mc/MC_C03.tla", "mc/MC_C03_rep.cfg", workers=8, timeout=1800, heap="6g")
     rec = ctx.path("c04-repeated.ndjson")
     summ = vlib.agv_ok(ctx, ["drive", "c04rep", "--out", rec], timeout=1200)
     n, fails = vlib.validate_trace(ctx, "trace/Trace_Match.tla", "trace/Trace_Match.cfg", rec, timeout=1800)
